@@ -235,12 +235,14 @@ func checkCommitAppliesEveryOp(p *Prog, r *Roles, res *Result, rule string) {
 			n++
 			construct := fmt.Sprintf("%s: every staged operation is applied to the skip list (loop #%d)", funcName(commit), n)
 			pa := posOf(nx)
-			skipped, _ := searchFrom(pa.b, pa.i+1, searchOpts{
-				stop: func(i ssa.Instruction) bool {
+			// (helpers of the package that the loop body calls are followed)
+			region := &fnRegion{root: commit, descend: func(g *ssa.Function) bool { return g.Pkg == commit.Pkg && g.Synthetic == "" }}
+			skipped, _, _ := region.search(&frame{fn: commit}, pa.b, pa.i+1, superOpts{
+				stop: func(i ssa.Instruction, _ *frame) bool {
 					c, ok := i.(ssa.CallInstruction)
 					return ok && isEngineCall(c, "Remove", "Set", "RemoveElement")
 				},
-				bad: func(i ssa.Instruction) bool { return i == ssa.Instruction(nx) },
+				bad: func(i ssa.Instruction, _ *frame) bool { return i == ssa.Instruction(nx) },
 			})
 			if skipped != nil {
 				res.bad(rule, construct, p.pos(nx.Pos()), "an iteration of the apply loop can reach the next staged operation without a Remove or Set on the skip list: the batch is acknowledged although one of its writes (e.g. every write that carries a ttl) was never stored")
@@ -332,7 +334,7 @@ func checkExpiryIsCompareAndDelete(p *Prog, r *Roles, res *Result, rule string) 
 						return false
 					}
 					// (Commit applies what was staged: the decision is taken where the delete is staged)
-					if isEngineCall(ci, "Remove", "RemoveElement") && ins.Parent() != p.implIn(r.BWCommit, "pkg/storage/memkv") {
+					if isEngineCall(ci, "Remove", "RemoveElement") {
 						return true
 					}
 					if callee := ci.Common().StaticCallee(); callee != nil && callee == p.implIn(r.BWDel, "pkg/storage/memkv") {
@@ -346,7 +348,18 @@ func checkExpiryIsCompareAndDelete(p *Prog, r *Roles, res *Result, rule string) 
 					continue
 				}
 				bad := ""
+				commitImpl := p.implIn(r.BWCommit, "pkg/storage/memkv")
 				for _, ch := range chains {
+					// Commit (and what it calls) applies what was staged: the decision is taken where the delete is staged
+					viaCommit := false
+					for _, fn := range ch.fns {
+						if fn == commitImpl {
+							viaCommit = true
+						}
+					}
+					if viaCommit {
+						continue
+					}
 					compared := false
 					for _, cf := range ch.facts() {
 						if cf.Call != nil && cf.Want {
